@@ -284,6 +284,7 @@ static void* cxx_new(size_t n,bool array,bool nothrow){
       if(nothrow) return 0;
       throw std::bad_alloc();
     }
+    if(G.cfg.passthrough){ G.st.cxx_allocs++; void* q=sys_malloc(n?n:1); if(!q){ if(nothrow) return 0; throw std::bad_alloc(); } return q; }
     lock(); G.st.cxx_allocs++; void* p=arena_alloc(n,array?KIND_CXX_ARRAY:KIND_CXX,-1); unlock();
     return p;
   }
@@ -298,11 +299,12 @@ static void cxx_delete(void* p,bool array){
     lock(); G.st.cxx_frees++; arena_free(p,array?KIND_CXX_ARRAY:KIND_CXX); unlock();
     return;
   }
+  if(G.active && t_scope) sched_yield(SITE_FREE);
   sys_free(p);
 }
 
 void* c_alloc(size_t n,bool zero){
-  if(G.active && t_scope && G.cfg.c_reuse!=REUSE_NONE){
+  if(G.active && t_scope && G.cfg.c_reuse!=REUSE_NONE && !G.cfg.passthrough){
     sched_yield(SITE_CALLOC);
     lock(); G.st.c_allocs++; void* p=arena_alloc(n,KIND_C,-1); unlock();
     if(zero) memset(p,0,n);
